@@ -277,6 +277,21 @@ def h_export(req):
                 [g.get_merged_transcript() for g in c.genes]
             except Exception:
                 pass
+        # ... after an export of the same objects with the other switches, and after exporting a query result of each
+        a = req["args"]
+        for flipped in (dict(a, raise_on_reserved_attributes=not a["raise_on_reserved_attributes"]),
+                        dict(a, chromosome_relative_coordinates=not a["chromosome_relative_coordinates"], add_sequences=False),
+                        dict(a, ordered=not a["ordered"])):
+            try:
+                _export(colls, flipped, simdisk.SimWriter())
+            except Exception:
+                pass
+        for c in colls:
+            try:
+                sub = c.query_by_position(c.start, c.end, completely_within=False)
+                _export([sub], dict(a, add_sequences=False), simdisk.SimWriter())
+            except Exception:
+                pass
     w2 = simdisk.SimWriter()
     try:
         _export(colls, req["args"], w2)
